@@ -124,36 +124,50 @@ LeafHas(t, k, b) == CASE Kind(t, k) = "lit" -> Fold(b) = Fold(Arg(t, k))
                       [] Kind(t, k) = "cls" -> ClassHas(Arg(t, k), b)
                       [] OTHER -> FALSE
 
-\* --- definition 1: span splitting.  M(t, w, k, i, j) == w[i+1..j] is in the language of node k --------------
-RECURSIVE M(_, _, _, _, _)
-M(t, w, k, i, j) ==
-  LET kd == Kind(t, k)  l == L(t, k)  r == R(t, k) IN
-  CASE kd \in LeafKinds -> j = i + 1 /\ LeafHas(t, k, w[j])
-    [] kd = "grp"  -> M(t, w, l, i, j)
-    [] kd = "opt"  -> i = j \/ M(t, w, l, i, j)
-    [] kd = "star" -> i = j \/ \E m \in (i + 1)..j : M(t, w, l, i, m) /\ M(t, w, k, m, j)
-    [] kd = "plus" -> M(t, w, l, i, j) \/ \E m \in (i + 1)..(j - 1) : M(t, w, l, i, m) /\ M(t, w, k, m, j)
-    [] kd = "cat"  -> \E m \in i..j : M(t, w, l, i, m) /\ M(t, w, r, m, j)
-    [] kd = "alt"  -> M(t, w, l, i, j) \/ M(t, w, r, i, j)
+\* --- static facts about every node.  Info(t, k)[n] for n <= k:
+\*       nul, fst, lst : nullable / first / last leaf positions (position automaton, definition 2 below)
+\*       mn, mx        : least / greatest length of a word of the node's language (INF = unbounded)
+INF == 100000
+Plus(a, b) == IF a >= INF \/ b >= INF THEN INF ELSE a + b
+Min2(a, b) == IF a < b THEN a ELSE b
+Max2(a, b) == IF a > b THEN a ELSE b
 
-\* whole-name match; the empty pattern accepts every name ("any device of the kind")
-Matches(t, w) == IF t = <<>> THEN TRUE ELSE M(t, w, Len(t), 0, Len(w))
-
-\* --- definition 2: position automaton.  Info(t, k)[n] = [nul, fst, lst] of node n, for n <= k ------------------
 RECURSIVE Info(_, _)
 Info(t, k) ==
   IF k = 0 THEN <<>> ELSE
   LET p == Info(t, k - 1)  kd == Kind(t, k)  l == L(t, k)  r == R(t, k) IN
   Append(p,
-    CASE kd \in LeafKinds -> [nul |-> FALSE, fst |-> {k}, lst |-> {k}]
+    CASE kd \in LeafKinds -> [nul |-> FALSE, fst |-> {k}, lst |-> {k}, mn |-> 1, mx |-> 1]
       [] kd = "grp"  -> p[l]
-      [] kd = "plus" -> p[l]
-      [] kd \in {"opt", "star"} -> [p[l] EXCEPT !.nul = TRUE]
+      [] kd = "plus" -> [p[l] EXCEPT !.mx = IF p[l].mx = 0 THEN 0 ELSE INF]
+      [] kd = "opt"  -> [p[l] EXCEPT !.nul = TRUE, !.mn = 0]
+      [] kd = "star" -> [p[l] EXCEPT !.nul = TRUE, !.mn = 0, !.mx = IF p[l].mx = 0 THEN 0 ELSE INF]
       [] kd = "cat"  -> [nul |-> p[l].nul /\ p[r].nul,
                          fst |-> p[l].fst \cup (IF p[l].nul THEN p[r].fst ELSE {}),
-                         lst |-> p[r].lst \cup (IF p[r].nul THEN p[l].lst ELSE {})]
-      [] kd = "alt"  -> [nul |-> p[l].nul \/ p[r].nul, fst |-> p[l].fst \cup p[r].fst, lst |-> p[l].lst \cup p[r].lst])
+                         lst |-> p[r].lst \cup (IF p[r].nul THEN p[l].lst ELSE {}),
+                         mn |-> p[l].mn + p[r].mn, mx |-> Plus(p[l].mx, p[r].mx)]
+      [] kd = "alt"  -> [nul |-> p[l].nul \/ p[r].nul, fst |-> p[l].fst \cup p[r].fst, lst |-> p[l].lst \cup p[r].lst,
+                         mn |-> Min2(p[l].mn, p[r].mn), mx |-> Max2(p[l].mx, p[r].mx)])
 
+\* --- definition 1: span splitting.  M(t, w, inf, k, i, j) == w[i+1..j] is in the language of node k -------------
+\* (the first conjunct only cuts hopeless splits early: no word of node k has a length outside mn..mx; without it
+\*  TLC's unmemoised evaluation is exponential on a concatenation of 25 literals)
+RECURSIVE M(_, _, _, _, _, _)
+M(t, w, inf, k, i, j) ==
+  LET kd == Kind(t, k)  l == L(t, k)  r == R(t, k) IN
+  /\ inf[k].mn <= j - i /\ j - i <= inf[k].mx
+  /\ CASE kd \in LeafKinds -> j = i + 1 /\ LeafHas(t, k, w[j])
+        [] kd = "grp"  -> M(t, w, inf, l, i, j)
+        [] kd = "opt"  -> i = j \/ M(t, w, inf, l, i, j)
+        [] kd = "star" -> i = j \/ \E m \in (i + 1)..j : M(t, w, inf, l, i, m) /\ M(t, w, inf, k, m, j)
+        [] kd = "plus" -> M(t, w, inf, l, i, j) \/ \E m \in (i + 1)..(j - 1) : M(t, w, inf, l, i, m) /\ M(t, w, inf, k, m, j)
+        [] kd = "cat"  -> \E m \in i..j : M(t, w, inf, l, i, m) /\ M(t, w, inf, r, m, j)
+        [] kd = "alt"  -> M(t, w, inf, l, i, j) \/ M(t, w, inf, r, i, j)
+
+\* whole-name match; the empty pattern accepts every name ("any device of the kind")
+Matches(t, w) == IF t = <<>> THEN TRUE ELSE M(t, w, Info(t, Len(t)), Len(t), 0, Len(w))
+
+\* --- definition 2: position automaton (Glushkov), independent of definition 1 ------------------------------------
 GMatches(t, w) ==
   IF t = <<>> THEN TRUE ELSE
   LET n == Len(t)
@@ -299,9 +313,11 @@ Spec == Init /\ [][Next]_vars
 Fresh == phase = "chk"
 
 UpSeq(s) == [i \in 1..Len(s) |-> Up(s[i])]
-\* words on which the two matcher definitions are compared: the names, their upper-case forms, every word of <= 2 alphabet bytes
+\* words on which the two matcher definitions are compared: the names, their upper-case forms, the empty word, every
+\* single alphabet byte and every two-byte word over (up to) three alphabet bytes
+PairBytes == {b \in Alphabet : Cardinality({c \in Alphabet : c < b}) < 3}
 TestWords == {Devices[d].name : d \in 1..NDev} \cup {UpSeq(Devices[d].name) : d \in 1..NDev}
-             \cup {<<>>} \cup {<<a>> : a \in Alphabet} \cup {<<a, b>> : a \in Alphabet, b \in Alphabet}
+             \cup {<<>>} \cup {<<a>> : a \in Alphabet} \cup {<<a, b>> : a \in PairBytes, b \in PairBytes}
 
 ShapeOK == Fresh => WellFormed(ast) /\ Admissible(ast)
 
